@@ -54,7 +54,7 @@ def _skew(p):
     return sp.Matrix([[0, -p[2], p[1]], [p[2], 0, -p[0]], [-p[1], p[0], 0]])
 
 
-def _decide(items, t0, budget=40):
+def _decide(items, t0, budget=300):
     out = []
     for name, e in items:
         st, det = alg.prove_zero(sp.sympify(e), budget=budget)
@@ -153,7 +153,7 @@ def _roundtrip_case(args, t0):
             items.append(("getcoordinates[cylindrical, %s, witness %d]::Z == z (local)" % (pname, wit), alg.expr_of(coords[2]) - gl[2]))
         if ctype == 3:
             items.append(("getcoordinates[spherical, %s, witness %d]::R^2 == x^2 + y^2 + z^2 (local)" % (pname, wit), alg.expr_of(coords[0]) ** 2 - (gl[0] ** 2 + gl[1] ** 2 + gl[2] ** 2)))
-        res += _decide(items, t0, budget=30)
+        res += _decide(items, t0, budget=200)
         res[-1]["detail"] = dict(res[-1]["detail"], decisions=reg.path[:6])
     return res
 
@@ -201,7 +201,7 @@ def _abc_case(args, t0):
     for i in range(3):
         items.append((tag + "::z axis is parallel to B - A [%d]" % i, cr[i]))
     items.append((tag + "::C lies in the x-z plane (y . (C - A) == 0)", yax.dot(ac)))
-    res = _decide(items, t0, budget=40)
+    res = _decide(items, t0, budget=300)
     # right-handed: T^T T == I (above) gives det = +-1; the admissible (A, B, C) set (non-collinear) is connected, so the sign is that at any one point
     detw = sp.N(xax.dot(yax.cross(zax)).xreplace({s_: alg.HashRegime.value(s_) for s_ in T.free_symbols}), 30)
     res.append(dict(name=tag + "::det T == +1 (orthogonality proved above; sign fixed by continuity, evaluated at the witness)",
